@@ -26,6 +26,10 @@ R = {
    text="FiatShamirDER.tla defines the DER pre-image of the challenge hash from X.690 on byte sequences; TLC checks injectivity and prefix-freeness on a pair state machine, emits expected pre-images for a boundary family of lists, and a trace spec turns inputs recorded from real proofs into the expected pre-image; the harness compares sha256 of every pre-image with HashCommit, GetHashNumber with its limb schedule, IntHashSha256 with sha256, and the challenge inside real proofs with the specification's pre-image.",
    note="SHA-256 trusted (stdlib); injectivity domain bounded (lists <= 3 over 8-13 values, elements up to 257 bytes); large pre-images emitted as segments.",
    tech="TLA+ transcription of the encoding evaluated by TLC (injectivity by exhaustive model checking); generated tables and recorded real-proof inputs compared with the real code"),
+ "C17": dict(engine="KeyProof.tla", design="5/C17, 13",
+   text="KeyProof.tla part (a) is the toy number theory behind the Gennaro sub-proofs: for every odd N below the bound TLC checks that moduli in each language can answer every challenge and that moduli outside it can answer at most the fraction the code's iteration counts assume; part (b) is the proof tree of ValidKeyProof as a grammar of leaf kinds with the verifier transcribed, explored under single (thorough: pairs of) alterations, contexts (other modulus, other or fewer bases) and transport. The harness builds real key proofs on 48..96-bit safe primes, enumerates the leaves by reflection and applies every (leaf kind, alteration kind, OR branch) case, runs component verifiers against bad moduli of every forbidden shape with best-effort cheating provers, and forges OR-steps.",
+   note="Toy sizes (N <= 255 / 1023 in the model, 48..96-bit primes in the replay); cheating provers are best effort (roots by CRT, subgroup search up to 2^22); soundness of the Camenisch-Michels sub-proofs is covered structurally, not number-theoretically; two leads (unlinked multiplier in expStepB, no lower limit on range-proof results) are reported as observations.",
+   tech="TLA+ number-theory and proof-tree models checked with TLC; generated alteration and bad-modulus cases replayed on the real provers and verifiers"),
  "C18": dict(engine="Serial.tla", design="5/C18, 13",
    text="Serial.tla has four small machines (file modes of WriteToFile as the syscalls issued, message types with optional parts and unserialised fields, key-document grammar with mutations, big-integer boundary classes); TLC checks PrivateStaysPrivate, MeaningPreserved and EverythingDecodes and emits every case; the harness executes each against the real code (temp dirs and os.Stat, real messages round-tripped and verified again, mutated key XML fed to every constructor, integers through all encodings).",
    note="Runs as root (permission checks do not apply); 1024-bit keys; mutations are single-element; D21 (negative K not serialisable) is a known finding.",
